@@ -48,6 +48,7 @@ type Run struct {
 	spurious   int
 	modelGaps  int
 	Workers    int
+	PostShapes func() // extra work of a shape-based check before the evidence is written
 }
 
 type Violation struct {
@@ -479,6 +480,18 @@ func RunBash(script string, stdin string, pre map[string]string, timeout time.Du
 	defer os.RemoveAll(dir)
 	work := filepath.Join(dir, "w")
 	os.MkdirAll(work, 0o777)
+	// canary files: an unquoted * ? [ in data becomes visible as a file name
+	if pre == nil {
+		pre = map[string]string{}
+	} else {
+		cp := map[string]string{}
+		for k, v := range pre {
+			cp[k] = v
+		}
+		pre = cp
+	}
+	pre["zzcanary"] = "canary\n"
+	pre["q"] = "canary\n"
 	for p, c := range pre {
 		fp := filepath.Join(work, p)
 		os.MkdirAll(filepath.Dir(fp), 0o777)
